@@ -468,7 +468,7 @@ func TestStress(t *testing.T) {
 		case "sender":
 			runSenderStress(fmt.Sprintf("stress-sender-%d-%d", seed, i), seed+int64(i), 3*time.Second, bw)
 		case "closerace":
-			runCloseRace(fmt.Sprintf("stress-closerace-%d-%d", seed, i), seed+int64(i), 30, bw)
+			runCloseRace(fmt.Sprintf("stress-closerace-%d-%d", seed, i), seed+int64(i), 44, bw)
 		case "ctor":
 			runCtorStress(fmt.Sprintf("stress-ctor-%d-%d", seed, i), seed+int64(i), 400, bw)
 		}
